@@ -29,7 +29,7 @@ COMPONENTS = {
     "real": ["eolib.data.EoWriter", "eolib.data.EoReader", "number and string codecs"],
     "stub_or_harness": ["history generator", "expected-value computation"],
 }
-PROBES = ["mode_toggled_back_between_writes", "output_taken_mid_history", "refused_write_in_history", "very_long_padding", "same_string_written_again", "perfect_fit_padded", "empty_string", "non_cp1252_character", "int_at_max", "trailing_unbounded_string",
+PROBES = ["scratch_bytearray_reused_by_sender", "mode_toggled_back_between_writes", "output_taken_mid_history", "refused_write_in_history", "very_long_padding", "same_string_written_again", "perfect_fit_padded", "empty_string", "non_cp1252_character", "int_at_max", "trailing_unbounded_string",
           "y_diaeresis_in_unpadded_string", "empty_padded_string"]
 
 INT_KINDS = ["char", "short", "three", "int"]
@@ -158,7 +158,16 @@ def execute(plan, env):
                 if k != "byte" and o[1] == {"char": 253, "short": 253**2, "three": 253**3, "int": 253**4}[k] - 1:
                     res.count("probe.int_at_max")
             elif k == "bytes":
-                w.add_bytes(bytes(o[1])); declared += len(o[1])
+                if step % 3 == 1:
+                    # the sender builds the bytes in a scratch array of its own and reuses it right away
+                    scratch = bytearray(o[1])
+                    w.add_bytes(scratch)
+                    scratch.clear()
+                    scratch += b"\x07\x07"
+                    res.count("probe.scratch_bytearray_reused_by_sender")
+                else:
+                    w.add_bytes(bytes(o[1]))
+                declared += len(o[1])
             elif k == "fixed":
                 w.add_fixed_string(o[1], o[2], o[3]); declared += o[2]
             elif k == "fixed_encoded":
